@@ -563,6 +563,10 @@ def run(ctx):
             ctx.sample({"route": "CreateWithQuantity(q,values=,dimension=)", "dimension": 3, "len": 2, "container": "nd", "expected": "ValueError, container untouched"})
             ctx.sample({"chain": ["+fixed", "bad:+array", "ChangingIndex", "pickle", "*nd1"], "expected": "dimension kept, refused attempt raises ValueError"})
             ctx.sample({"curve history": [["Curve", 2, 2], ["SetImage", 3], ["domain=", 2], ["SetDomain", 0]], "expected": "lengths always equal; refused calls leave image and domain identical"})
+    # thorough tier: the repository's own tests as a workload under the global monitors (vp/suite_workload.py)
+    from .. import suite_workload
+
+    suite_workload.run(ctx, "C11")
     ctx.inconclusive_if(probe.BOUNDARY["FixedArray.__init__"] == 0 or probe.BOUNDARY["FixedArray.ChangingIndex"] == 0 or probe.BOUNDARY["Curve.SetImage"] == 0, "deciding wrappers never reached")
     ctx.inconclusive_if(ctx.counters.get("refused", 0) == 0 or ctx.counters.get("accepted", 0) == 0 or ctx.counters.get("curve refused", 0) == 0, "no refused or no accepted attempt observed")
 
